@@ -87,6 +87,19 @@ def ratfun(e, sym, depth=0):
                 return p_mul(n1, d2), p_mul(d1, n2)
             sg = 1 if isinstance(e.op, ast.Add) else -1
             return p_add(p_mul(n1, d2), p_mul(n2, d1), sg), p_mul(d1, d2)
+    if isinstance(e, ast.BinOp) and isinstance(e.op, ast.Pow) and \
+            isinstance(e.right, ast.Constant) and isinstance(e.right.value, int) and \
+            not isinstance(e.right.value, bool) and abs(e.right.value) <= 6:
+        n1, d1 = ratfun(e.left, sym, depth + 1)
+        k = e.right.value
+        if k < 0:
+            if not n1:
+                raise Undecided('division by zero')
+            n1, d1, k = d1, n1, -k
+        rn, rd = p_const(1), p_const(1)
+        for _ in range(k):
+            rn, rd = p_mul(rn, n1), p_mul(rd, d1)
+        return rn, rd
     raise Undecided('`%s` is not a rational expression of the counters' % unparse(e)[:40])
 
 
@@ -164,6 +177,38 @@ def rule_V2(ctx, rid='V2'):
                    '(n_sample - n_reject) / n_sample' % unparse(logs[0][1].args[0])[:50])
         except Undecided as exc:
             ctx.note('%s not decided for %s: %s' % (rid, q, exc))
+    # the division by n_sample is preceded by a draw whenever no proposal was made yet
+    for q in ('Union.log_v', 'NautilusBound.log_v'):
+        f = prog.func(q)
+        cfg = cfg_of(f)
+        rets = [r for r in _returns(f) if not isinstance(r.value, ast.Constant) and cfg.has(r)]
+        guards = []
+        for t in cfg.nodes:
+            if t.kind != 'test' or t.expr is None:
+                continue
+            e = t.expr
+            if isinstance(e, ast.Compare) and len(e.ops) == 1 and \
+                    _self_attr(e.left) == 'n_sample' and isinstance(e.ops[0], (ast.Eq, ast.LtE)) \
+                    and isinstance(e.comparators[0], ast.Constant) and \
+                    e.comparators[0].value == 0:
+                tb = [s_ for s_, lab in t.succ if lab is True]
+                draws = [nn for nn in cfg.nodes if nn.ast is not None and any(
+                    isinstance(c, ast.Call) and isinstance(c.func, ast.Attribute) and
+                    c.func.attr == 'sample' and isinstance(c.func.value, ast.Name) and
+                    c.func.value.id == f.self_name for c in ast.walk(nn.ast)
+                    if isinstance(nn.ast, ast.AST))]
+                if tb and any(d.id == tb[0] or d.id in cfg.reach(tb[0]) for d in draws) and \
+                        all(cfg.dominates(t.id, cfg.node_of(r).id) for r in rets):
+                    guards.append(t)
+            if isinstance(e, ast.UnaryOp) and isinstance(e.op, ast.Not) and \
+                    _self_attr(e.operand) == 'n_sample':
+                guards.append(t)
+        n += 1
+        ctx.ob(rid, '%s:sampled-before-dividing' % q, bool(guards), f.where(),
+               'a bound that has not proposed anything yet draws first (n_sample == 0 => '
+               'sample()), so the accepted fraction is never 0/0' if guards else
+               'the accepted fraction divides by n_sample without first making sure that '
+               'proposals have been drawn: a fresh or reset bound reports nan')
     # log_v_all is the members' log volumes, in member order, wherever it is (re)built
     fU = prog.cls('Union')
     for m in fU.methods.values():
